@@ -1,6 +1,7 @@
 """C07 - masking and unpacking of file data follow the netCDF conventions (DESIGN.md section 4, C07)."""
 import itertools
 import json
+import os
 
 import numpy as np
 
@@ -183,7 +184,7 @@ def gen_case(rng, dt, fam="field", subset=None, malformed=False):
         attrs["_Unsigned"] = {"t": "str", "v": rng.choice(["true", "true", "true", "True", "false", "TRUE"])}
     # shape and data
     r = rng.random()
-    shape = [rng.randint(7, 10)] if r < 0.8 else ([2, 4] if r < 0.93 else [])
+    shape = [rng.randint(7, 10)] if r < 0.8 else ([2, 4] if (r < 0.93 or fam == "aux") else [])
     n = int(np.prod(shape)) if shape else 1
     spec_in = []
     for v in special:
@@ -254,17 +255,18 @@ def build_cases(chk):
     rng = chk.rng
     T = chk.tier == "thorough"
     cases = [dict(c) for c in CORPUS]
-    n_field = 4200 if T else 900
-    n_aux = 600 if T else 150
-    n_mal = 500 if T else 120
+    scale = float(os.environ.get("C07_SCALE", "1"))
+    n_field = int((4200 if T else 520) * scale)
+    n_aux = int((600 if T else 90) * scale)
+    n_mal = int((500 if T else 60) * scale)
     for k in range(n_field):
         cases.append(gen_case(rng, DTYPES[k % len(DTYPES)]))
     for k in range(n_aux):
         cases.append(gen_case(rng, DTYPES[k % len(DTYPES)], fam="aux"))
     # every subset of the eight attributes
     names = ["_FillValue", "missing_value", "valid_min", "valid_max", "valid_range", "scale_factor", "add_offset", "_Unsigned"]
-    for dt in (DTYPES if T else ["i2", "f4", "u1"]):
-        for bits in range(256):
+    for dt in (DTYPES if T else [rng.choice(INTS), rng.choice(FLOATS)]):
+        for bits in range(0, 256, 1 if T or scale >= 1 else 8):
             sub = {nm for j, nm in enumerate(names) if bits >> j & 1}
             cases.append(gen_case(rng, dt, fam="all-subsets", subset=sub))
     for k in range(n_mal):
@@ -278,12 +280,14 @@ def build_cases(chk):
 def run_cases(cases, scratch, nworkers=14, per_file=20):
     # malformed cases go in small files of their own: one bad variable can fail a whole read
     groups = []
-    normal = [c for c in cases if not c["malformed"] and not c["fam"].startswith("corpus")]
-    odd = [c for c in cases if c["malformed"] or c["fam"].startswith("corpus")]
+    def alone(c):
+        return c["fam"].startswith("corpus") or vector_pack(c) or str_attr(c)
+    normal = [c for c in cases if not alone(c)]
     for k in range(0, len(normal), per_file):
         groups.append(normal[k:k + per_file])
-    for k in range(0, len(odd), 2):
-        groups.append(odd[k:k + 2])
+    for c in cases:
+        if alone(c):
+            groups.append([c])
     groups = [{"gid": n, "cases": g} for n, g in enumerate(groups)]
     shards = [groups[k::nworkers] for k in range(nworkers)]
     shards = [s for s in shards if s]
@@ -312,8 +316,15 @@ def packing(c):
     return unsigned_on(c) and c["dt"][0] == "i"
 
 
-def unsafe_valid(c):
-    return any(k in c["attrs"] and not safe_cast(c["dt"], c["attrs"][k]) for k in ("valid_min", "valid_max", "valid_range"))
+def unsafe_attr(c):
+    return any(k in c["attrs"] and not safe_cast(c["dt"], c["attrs"][k]) for k in MASK_ATTRS)
+
+
+def default_fill_under_view(c):
+    """_Unsigned view of a signed variable without _FillValue: cfdm compares the data with the default
+    fill value's bit pattern (both viewed as unsigned); netCDF4-python compares the viewed data with the
+    signed default, which never matches."""
+    return unsigned_on(c) and c["dt"][0] == "i" and c["fill"] is None
 
 
 def range_and_minmax(c):
@@ -357,8 +368,11 @@ def np_select(obs, idx):
 
 
 def same(a, b):
-    return a is not None and b is not None and "err" not in a and "err" not in b and \
-        a["dtype"] == b["dtype"] and a["shape"] == b["shape"] and a["flat"] == b["flat"]
+    if a is None or b is None or "err" in a or "err" in b:
+        return False
+    if a["shape"] == [] and b["shape"] == [] and a["flat"] == [None] and b["flat"] == [None]:
+        return True      # a missing scalar is numpy's masked constant, which has no data type of its own
+    return a["dtype"] == b["dtype"] and a["shape"] == b["shape"] and a["flat"] == b["flat"]
 
 
 def brief(o):
@@ -428,10 +442,12 @@ def g_obs(o):
     for v in o["flat"]:
         if v is None:
             vals.append("None")
+        elif v == "nan":
+            vals.append("(Some ONaN)")
         elif modelable_value(v):
-            vals.append(f"(Some {g_num(v)})")
+            vals.append(f"(Some (OFin {gz(v)}))")
         else:
-            vals.append("(Some Unk)")
+            vals.append("(Some OUnk)")
     return f"(Ok ({o['dtype'].upper()}, [{'; '.join(vals)}]))"
 
 
@@ -494,6 +510,10 @@ def run(chk, model_ok):
                 o = cf.get(f"{b}|{m}|{u}", {}).get("whole")
                 stats["ref_compared"] += 1
                 ok = same(o, ref)
+                if not ok and u == 1 and default_fill_under_view(c) and o is not None and "err" not in o and \
+                        o["dtype"] == ref["dtype"] and len(o["flat"]) == len(ref["flat"]):
+                    dfl = DEFAULT_FILL[c["dt"]]
+                    ok = all(x == y or (x is None and raw == dfl) for x, y, raw in zip(o["flat"], ref["flat"], c["data"]))
                 if not ok and o is not None and "err" not in o and u == 1 and identity_pack(c) and \
                         o["shape"] == ref["shape"] and o["flat"] == ref["flat"]:
                     ok = True          # documented deviation: unpacked type is the attribute's type (CF 8.1)
@@ -534,7 +554,7 @@ def run(chk, model_ok):
                          f"but the file holds {brief(r.get('raw'))}", brief(r.get("raw")), brief(w), key)
                 wm = cf.get(f"{b}|1|{int(u)}", {}).get("whole")
                 if wm is not None and "err" not in wm:
-                    if wm["dtype"] != w["dtype"] or any(x is not None and x != y for x, y in zip(wm["flat"], w["flat"])):
+                    if (wm["dtype"] != w["dtype"] and wm["flat"] != [None]) or any(x is not None and x != y for x, y in zip(wm["flat"], w["flat"])):
                         fail(c, "masked-read-values-differ-from-unmasked", f"{desc}: masked read {brief(wm)} vs unmasked {brief(w)}",
                              brief(w), brief(wm), key)
             # O4: subspace
@@ -573,6 +593,8 @@ def run(chk, model_ok):
                         stats["apply_compared"] += 1
                         e = wm if fld != "bapplied" else {"dtype": wm["dtype"], "shape": wm["shape"] + [2],
                                                           "flat": [v for v in wm["flat"] for _ in (0, 1)]}
+                        if bad_range_len(c) or str_attr(c):
+                            continue      # malformed attributes: only the reads themselves are checked
                         if not same(o[fld], e):
                             if u and packing(c):
                                 sig = "apply-masking-on-unpacked-data"
@@ -580,8 +602,8 @@ def run(chk, model_ok):
                                 sig = "apply-masking-valid-range-with-valid-min-max"
                             elif bad_range_len(c):
                                 sig = "apply-masking-valid-range-not-two-values"
-                            elif unsafe_valid(c):
-                                sig = "apply-masking-unsafe-valid-attribute"
+                            elif unsafe_attr(c):
+                                sig = "apply-masking-unsafe-attribute"
                             elif str_attr(c):
                                 sig = "apply-masking-string-attribute"
                             elif "nan" in c["attrs"].get("missing_value", {}).get("v", []) or c["fill"] == "nan":
@@ -598,7 +620,7 @@ def run(chk, model_ok):
             if modelable(c) and (b == "netCDF4" or "err" in w):
                 lits_read.append(f"({c['dt'].upper()}, {g_case_attrs(c)}, {gbool(m)}, {gbool(u)}, {glist(c['data'], g_num)}, {g_obs(w)})")
                 map_read.append((c, key, w))
-                if not m and "applied" in o and not (u and packing(c)):
+                if not m and "applied" in o and not (u and packing(c)) and not str_attr(c):
                     lits_app.append(f"({c['dt'].upper()}, {g_case_attrs(c)}, {gbool(u)}, {glist(c['data'], g_num)}, {g_obs(o['applied'])})")
                     map_app.append((c, key, o["applied"]))
     ncorr = 0
